@@ -62,6 +62,8 @@ def kind_of(txt):
     t = txt.lower()
     if 'dict or' in t and 'list of dict' in t:
         return 'dictorlist'
+    if re.search(r'list of (pd\.|pandas\.)?dataframe', t):
+        return 'list'
     for pat, k in KIND_PAT:
         if re.search(pat, t):
             return k
@@ -97,37 +99,51 @@ def parse_doc(doc):
 class Model:
     """All modules / functions of one source tree."""
 
-    def __init__(self, root, pkg=PKG, enforce_floors=True):
+    def __init__(self, root, pkg=PKG, enforce_floors=True, sources=None):
         self.root, self.pkg = root, pkg
         self.mods, self.paths, self.src = {}, {}, {}
         self.funcs, self.imports, self.classes = {}, {}, {}
         self.modassign = {}
+        self.is_pkg = {}
+        self._sources = sources
         self._load()
         if enforce_floors and (len(self.mods) < MIN_MODULES or len(self.funcs) < MIN_FUNCTIONS):
             raise AnalysisError(f'source model too small: {len(self.mods)} modules / {len(self.funcs)} functions '
                                 f'(floors {MIN_MODULES}/{MIN_FUNCTIONS}) under {root}')
 
     # ------------------------------------------------------------------ loading
-    def _load(self):
+    @classmethod
+    def from_sources(cls, sources, pkg='mini'):
+        """in-memory model (embedded positive examples for zero-instance rules): {relative path: source}"""
+        return cls('<memory>', pkg=pkg, enforce_floors=False, sources=sources)
+
+    def _files(self):
+        if self._sources is not None:
+            for rel in sorted(self._sources):
+                yield rel, self._sources[rel]
+            return
         top = os.path.join(self.root, self.pkg)
         if not os.path.isdir(top):
             raise AnalysisError(f'package directory {top} not found')
         for d, dirs, fs in os.walk(top):
             dirs[:] = sorted(x for x in dirs if x not in ('tests', '__pycache__'))
             for f in sorted(fs):
-                if not f.endswith('.py'):
-                    continue
-                p = os.path.join(d, f)
-                rel = os.path.relpath(p, self.root)
-                mod = rel[:-3].replace(os.sep, '.')
-                if mod.endswith('.__init__'):
-                    mod = mod[:-9]
-                src = open(p, encoding='utf-8').read()
-                try:
-                    tree = ast.parse(src, filename=rel)
-                except SyntaxError as e:
-                    raise AnalysisError(f'{rel} does not parse: {e}')
-                self.mods[mod], self.paths[mod], self.src[mod] = tree, rel, src
+                if f.endswith('.py'):
+                    p = os.path.join(d, f)
+                    yield os.path.relpath(p, self.root), open(p, encoding='utf-8').read()
+
+    def _load(self):
+        for rel, src in self._files():
+            mod = rel[:-3].replace(os.sep, '.').replace('/', '.')
+            pkgflag = mod.endswith('.__init__') or mod == '__init__'
+            if mod.endswith('.__init__'):
+                mod = mod[:-9]
+            try:
+                tree = ast.parse(src, filename=rel)
+            except SyntaxError as e:
+                raise AnalysisError(f'{rel} does not parse: {e}')
+            self.mods[mod], self.paths[mod], self.src[mod] = tree, rel, src
+            self.is_pkg[mod] = pkgflag
         for mod, tree in self.mods.items():
             imp = {}
             self._scan_imports(mod, tree.body, imp)
@@ -157,7 +173,7 @@ class Model:
                 base = n.module or ''
                 if n.level:
                     parts = mod.split('.')
-                    is_pkg = os.path.isdir(os.path.join(self.root, *parts))
+                    is_pkg = self.is_pkg.get(mod, False)
                     up = parts if is_pkg else parts[:-1]
                     up = up[:len(up) - (n.level - 1)]
                     base = '.'.join(up + ([n.module] if n.module else []))
@@ -207,6 +223,8 @@ class Model:
     def find(self, name):
         """Public lookup by bare name, e.g. 'compute_features' (unique or AnalysisError)."""
         c = [q for q in self.funcs if q.endswith('.' + name)]
+        if len(c) > 1:          # prefer module-level functions over methods of the same name
+            c = [q for q in c if self.funcs[q].cls is None] or c
         if len(c) != 1:
             raise AnalysisError(f'anchor {name}: expected exactly one definition, found {c}')
         return self.funcs[c[0]]
